@@ -370,6 +370,11 @@ impl<S: AsyncRead + AsyncWrite + Unpin> NoiseSocket<S> {
         peer: PeerId,
         ty: HandshakeTransport,
     ) -> Self {
+        // A value of zero would leave no room for a single frame: reads would fail with a
+        // spurious EOF and writes would return `Poll::Pending` forever without a waker.
+        let max_read_ahead_factor = max_read_ahead_factor.max(1);
+        let max_write_buffer_size = max_write_buffer_size.max(1);
+
         Self {
             io,
             noise,
